@@ -196,6 +196,14 @@ func (p *Prog) mapNonNil(fn *ssa.Function, cz *canonizer, m ssa.Value, at ssa.In
 				}
 			}
 			return false, "value of unknown origin"
+		case *ssa.Call:
+			// single-result call of a module function that returns a non-nil map on every path
+			if g := staticCallee(&x.Call); g != nil && p.InModule(g) && len(g.Blocks) > 0 && g.Signature.Results().Len() == 1 {
+				if p.resultNeverNilMap(g, 0) {
+					return true, "result of " + p.Name(g) + ", which returns a non-nil map on every path"
+				}
+			}
+			return false, "value of unknown origin"
 		case *ssa.Parameter:
 			if fn.Signature.Recv() != nil && x == fn.Params[0] || p.Exported(fn) {
 				return true, "assumed:receiver/argument map supplied by the caller is non-nil (writing into a nil Map is the caller's error)"
